@@ -127,7 +127,7 @@ static void m_apply(int op) {
             }
             ref_append(d.k, d.t, d.v);
             aws_reset_error();
-            int rc = aws_linked_hash_table_put(&T, key, &VO[d.v]);
+            int rc = aws_linked_hash_table_put(&T, key, vptr(d.v));
             ESX_CHECK(rc == AWS_OP_SUCCESS, "put-result", "%s returned %d (error %d)", g_opname, rc, aws_last_error());
             C18_COUNT("puts", 1);
             break;
@@ -139,7 +139,7 @@ static void m_apply(int op) {
             aws_reset_error();
             int rc = d.kind == K_FIND ? aws_linked_hash_table_find(&T, key, &out) : aws_linked_hash_table_find_and_move_to_back(&T, key, &out);
             ESX_CHECK(rc == AWS_OP_SUCCESS, "find-result", "%s returned %d (error %d)", g_opname, rc, aws_last_error());
-            void *want = i >= 0 ? (void *)&VO[R[i].v] : NULL;
+            void *want = i >= 0 ? vptr(R[i].v) : NULL;
             if (!esx_failed) {
                 struct vobj *g = as_val(out);
                 ESX_CHECK(out == want, "find-value", "%s gave %s%d, reference says %s%d [%s]", g_opname, out == NULL ? "NULL " : (g ? "v" : "garbage "),
